@@ -263,7 +263,7 @@ def run_check(pid, tier, seed):
                 problems.append(f"REAL-world replay failed: {e}")
 
     violations_out = []
-    rdir = os.path.join(VERIF, "replays", pid)
+    rdir = os.path.join(os.environ.get("VERIF_OUT_DIR", VERIF), "replays", pid)
     for v in confirmed:
         trig = spec.trigger(v, v["job"])
         k = match_known(known, pid, v, v["job"], trig)
@@ -356,8 +356,9 @@ def run_check(pid, tier, seed):
         wall_s=round(wall, 2),
         violations=len(violations_out),
     )
-    os.makedirs(os.path.join(VERIF, "evidence"), exist_ok=True)
-    with open(os.path.join(VERIF, "evidence", f"{pid}.json"), "w") as f:
+    evdir = os.path.join(os.environ.get("VERIF_OUT_DIR", VERIF), "evidence")
+    os.makedirs(evdir, exist_ok=True)
+    with open(os.path.join(evdir, f"{pid}.json"), "w") as f:
         json.dump(_jsonable(ev), f, indent=1)
 
     print(f"[{pid} {tier}] paths={agg['paths']} branches={agg['branches']} queries={agg['queries']} "
